@@ -89,9 +89,11 @@ func (a *Alias) LLString() string {
 	}
 	buf.WriteString(" alias")
 	fmt.Fprintf(buf, " %s, ", a.Typ.ElemType)
-	if expr, ok := a.Aliasee.(constant.Expression); ok {
+	switch expr := a.Aliasee.(type) {
+	case *constant.ExprBitCast, *constant.ExprGetElementPtr, *constant.ExprAddrSpaceCast, *constant.ExprIntToPtr:
+		// These constant expressions are written without a leading type.
 		buf.WriteString(expr.Ident())
-	} else {
+	default:
 		buf.WriteString(a.Aliasee.String())
 	}
 	if len(a.Partition) > 0 {
